@@ -18,7 +18,8 @@ class C09(Prop):
             "baseline's; one evaluation = one export; non-trivial = variant input differs from baseline input and the "
             "baseline exported data; distinct = (scenario, variant)")
     reach = ["perm", "crlf", "deco", "upper", "dsb_only_no_s", "dsb_split", "dsb_between_packets", "both", "no_final_newline", "dsb_no_final_newline", "both_partial_file", "dsb_plus_comment_only_dsb", "dsb_before_idb", "dsb_with_tsoffset", "quic_world",
-             "other_cwd"]
+             "other_cwd", "long_file_line_across_block_boundary",
+             "dsb_per_connection_before_its_first_packet"]
 
     def plan(self, tier):
         p = super().plan(tier)
@@ -57,6 +58,12 @@ class C09(Prop):
             ["both_partial_file", {"mode": "both", "dsb": [[0, 0]], "file_part": V.choice([2, 3])}],
             ["both_partial_file", {"mode": "both", "dsb": [[0, 0], [0, 1]], "file_part": 2, "perm_seed": V.bits(30)}],
         ]
+        variants += [
+            ["long_file_line_across_block_boundary", {"mode": "file", "straddle": V.bits(30)}],
+            ["long_file_line_across_block_boundary", {"mode": "file", "straddle": V.bits(30), "perm_seed": V.bits(30),
+                                                      "crlf": V.chance(30)}],
+        ]
+        variants.append(["dsb_per_connection_before_its_first_packet", {"mode": "dsb", "dsb_per_conn": True}])
         if not has_quic:
             npk = 60
             variants.append(["dsb_between_packets", {"mode": "dsb", "dsb": [[V.range(0, npk), 0], [V.range(0, npk), 1]]}])
